@@ -202,7 +202,7 @@ Fixpoint tf_passes_tr (t : tenv) (d : list name) (body : list gstmt) (st : fstat
 
 Definition tf_trace (setup : list tstmt) (body : list gstmt) (cs : list Z) : list wv :=
   let '(t0, d0) := track false [] [] (ungated setup) in
-  match tf_block false 0 [] [] [] f_init (ungated setup) with
+  match tf_block false 0 (fun _ => []) [] [] f_init (ungated setup) with
   | Safe (st0, o) => fw_phase st0 o :: tf_passes_tr t0 d0 body st0 cs
   | Unsafe k => [WL [WI 1; WI (wkind k)]]
   end.
@@ -225,15 +225,15 @@ Definition tp_trace (setup : list tstmt) (body : list gstmt) (cs : list Z) : lis
   end.
 
 (* the folded len() values, one per len() read of the body in source order (-1: emitted as run-time __redu_len) *)
-Fixpoint folded_lens (td t : tenv) (ss : list gstmt) : list wv :=
+Fixpoint folded_lens (fe : tstmt -> tenv) (t : tenv) (ss : list gstmt) : list wv :=
   match ss with
   | [] => []
   | (s, g) :: r =>
       (match s with
        | TGetLen _ y _ _ => [WI (match t_cur t y with Some cur => Z.of_nat (length cur) | None => -1 end)]
-       | TCallLen _ p y _ _ => [WI (match t_cur (fn_env td [p]) y with Some cur => Z.of_nat (length cur) | None => -1 end)]
+       | TCallLen _ p y _ _ => [WI (match t_cur (fn_env (fe s) [p]) y with Some cur => Z.of_nat (length cur) | None => -1 end)]
        | _ => []
-       end) ++ folded_lens td (track1 (is_gated g) t s) r
+       end) ++ folded_lens fe (track1 (is_gated g) t s) r
   end.
 
 (* case: (0 (setup stmts) (body stmts) n)  ->  (0 guard (fw phases) (py phases) frozen_ok)      py phase = (0 (outs) live named)
@@ -275,7 +275,7 @@ Definition run (v : wv) : wv :=
           wok [wbool (len_ok ss body);
                WL (tf_trace ss body cs);
                WL (tp_trace ss body cs);
-               WL (let t0 := fst (track false [] [] (ungated ss)) in folded_lens t0 t0 body)]
+               WL (let t0 := fst (track false [] [] (ungated ss)) in folded_lens (first_env t0 body) t0 body)]
       | _, _, _, _ => wbad
       end
   | _ => wbad
